@@ -105,6 +105,42 @@ def run(repo: Repo, chk: Check) -> None:
                    f'{fi.module.relpath}:{d.line}', {'path_without_advance': g.describe_path(p_after) if p_after and not before else None},
                    what=f'a path through the node request reaches the {name} without advancing the rotation index')
 
+    # ---- 3 the constructor establishes the invariant the rotation relies on: one node per configured URI, in order, index 0 ------------------
+    chk.set_clause('C28.3')
+    init = repo.func(f'{Q}.__init__')
+
+    class InitHooks(Hooks):
+        def inline(self, it, fi):
+            return fi.qualname in (f'{Q}.__init__', 'pytezos.rpc.node.RpcNode.__init__')
+
+        def call(self, it, callee, args, kwargs, node):
+            from ..absint import ClassRef
+            if isinstance(callee, ClassRef) and callee.qual == 'pytezos.rpc.node.RpcNode':
+                it.event('node-for', args[0] if args else kwargs.get('uri'))
+                return Obj('pytezos.rpc.node.RpcNode', {'uri': [args[0]] if args else None})
+            return NotImplemented
+
+    for what, uri, want in (('a single URI given as a string', 'http://node0', ['http://node0']),
+                            ('a list with one URI', ['http://node0'], ['http://node0']),
+                            ('a list of three URIs', ['http://n0', 'http://n1', 'http://n2'], ['http://n0', 'http://n1', 'http://n2'])):
+        def mk(uri=uri):
+            import copy
+            return Obj(Q, {}), [copy.deepcopy(uri)], {}
+
+        final = {}
+
+        def after(it, o, final=final):
+            it.event('final-state', o.fields.get('_next_i'), len(o.fields['nodes']) if isinstance(o.fields.get('nodes'), list) else vrepr(o.fields.get('nodes')))
+
+        res = Interp(repo, InitHooks(), max_depth=2).run_method(init, mk, after)
+        ok = len(res) == 1 and res[0].outcome == 'return'
+        nodes = [e[1] for p in res for e in p.events if isinstance(e, tuple) and e[0] == 'node-for']
+        fin = [e for p in res for e in p.events if isinstance(e, tuple) and e[0] == 'final-state']
+        ok = ok and nodes == want and bool(fin) and fin[-1][1] == 0 and fin[-1][2] == len(want)
+        chk.ob('R-TEMPLATE', init.qualname, ok, f'{what}: one node proxy per URI, in order, rotation starts at 0', init.loc,
+               {'proxies_for': [vrepr(n) for n in nodes], 'final': [vrepr(list(e[1:])) for e in fin]},
+               what=f'RpcMultiNode({uri!r}) builds node proxies for {[vrepr(n) for n in nodes]} (expected {want}, index 0): requests go to the wrong addresses')
+
 
 def controls(chk: Check) -> None:
     src = "def f(self):\n    r = self.n[self._next_i].request()\n    self._next_i = 1\n    return r\n"
@@ -113,3 +149,4 @@ def controls(chk: Check) -> None:
     d = [n for n in g.nodes if n.kind == 'stmt' and 'request' in norm(n.ast) and n not in adv][0]
     if g.paths_avoiding(d, g.xexit, adv) is None:
         raise AnalysisError('positive control of the exceptional-edge rule failed')
+
